@@ -455,6 +455,11 @@ func (in *instr) touchesChan(s ast.Stmt) bool {
 				if obj := in.info.Uses[sel.Sel]; obj != nil && obj.Pkg() != nil && obj.Pkg().Path() == "sync/atomic" {
 					found = true
 				}
+				// without type information (mqtttest): the package
+				// qualifier
+				if id, ok := sel.X.(*ast.Ident); ok && id.Name == "atomic" {
+					found = true
+				}
 			}
 		}
 		return true
